@@ -2,6 +2,7 @@ import DuneVerif.Proofs.C09
 import DuneVerif.Proofs.C09LU
 import DuneVerif.Proofs.C09Layer
 import DuneVerif.Proofs.C09Defaults
+import DuneVerif.Proofs.C09Chk
 import DuneVerif.Gen.C09Lanes
 /-!
 # C09 — SIMD types are lane-wise transparent, also through the dense-matrix algorithms
@@ -551,5 +552,139 @@ example : determinant (SimdLike.nested 1 2) intArith true (Mat.map (fun e => (#v
 -- a 2×3 matrix of two-lane numbers times a vector, lane by lane
 example : mvR (SimdLike.loop 2) intArith (#v[#v[#v[1, 2], #v[0, 1], #v[2, 0]], #v[#v[0, 1], #v[1, 1], #v[1, 1]]] : RMat (Vec Int 2) 2 3)
     #v[#v[1, 1], #v[2, 3], #v[3, 5]] #v[#v[7, 7], #v[7, 7]] = #v[#v[7, 5], #v[5, 9]] := by decide +kernel
+
+-- ------------------------------------------------------------------------------------------------
+-- 7. (round 3) scalar operands of another arithmetic type; the configuration DUNE_FMatrix_WITH_CHECKING
+-- ------------------------------------------------------------------------------------------------
+section Mixed
+variable {α σ : Type} {S S₂ : Nat}
+
+/-- the declared types of the scalar parameters the translator read off loop.hh: the mask-valued operators (comparisons
+    `v @ s`, `s @ v`, logic `v @ s`) and the shifts `v @ s` are generic in the type of the scalar operand (the argument
+    keeps its type), `s && v` / `s || v` takes `Simd::Mask<T>` (the argument arrives as its truth value) -/
+theorem scalar_param_types :
+    loop_COMPARISON_OP_vs.scalarTy = .own ∧ loop_COMPARISON_OP_sv.scalarTy = .own ∧ loop_BOOLEAN_OP_vs.scalarTy = .own ∧
+    loop_BOOLEAN_OP_sv.scalarTy = .laneMask ∧ loop_BITSHIFT_OP_vs.scalarTy = .own := by decide
+
+/-- **comparison with a scalar of another type** (`LoopSIMD<int,4> v; v < 2.5`, `0.1 == LoopSIMD<float,4>`): lane `l` of the
+    mask is the built-in mixed-type comparison of lane `l` with the scalar *in its own type* (`.own`), never with the
+    scalar converted to the lanes' type — for every meaning `sem` of the mixed comparison, both operand orders -/
+theorem lane_op_compare_mixed (semL : CmpOp → α → Simd.Arg σ α → Option Bool) (semR : CmpOp → Simd.Arg σ α → α → Option Bool)
+    (toLane : σ → Option α) (truth : σ → Option Bool) (op : CmpOp) (a : Vec α S) (s : σ) :
+    LanewiseBinVS (Simd.compareVSx semL toLane truth op a s) (fun x t => semL op x (.own t)) a s ∧
+    LanewiseBinSV (Simd.compareSVx semR toLane truth op s a) (fun t y => semR op (.own t) y) s a :=
+  ⟨lanewise_compareVSx semL toLane truth op a s, lanewise_compareSVx semR toLane truth op s a⟩
+
+/-- **logic with a scalar of another type**: `v && s` sees `s` in its own type; `s && v` sees the truth value of `s` -/
+theorem lane_op_logic_mixed (semL : BoolOp → α → Simd.Arg σ α → Option Bool) (semR : BoolOp → Simd.Arg σ α → α → Option Bool)
+    (toLane : σ → Option α) (truth : σ → Option Bool) (op : BoolOp) (a : Vec α S) (s : σ) :
+    LanewiseBinVS (Simd.logicVSx semL toLane truth op a s) (fun x t => semL op x (.own t)) a s ∧
+    Simd.logicSVx semR toLane truth op s a = (truth s).bind fun m => allSome (a.map fun y => semR op (.mask m) y) :=
+  ⟨lanewise_logicVSx semL toLane truth op a s, lanewise_logicSVx semR toLane truth op s a⟩
+
+/-- **shift by a scalar count of another type** -/
+theorem lane_op_shift_mixed (sem : ShiftOp → α → Simd.Arg σ α → Option α) (toLane : σ → Option α) (truth : σ → Option Bool)
+    (op : ShiftOp) (a : Vec α S) (s : σ) :
+    LanewiseBinVS (Simd.shiftVSx sem toLane truth op a s) (fun x t => sem op x (.own t)) a s :=
+  lanewise_shiftVSx sem toLane truth op a s
+
+/-- for **every** per-lane loop with a scalar operand, whatever its declared type: the implicit conversion of the call happens
+    once, all lanes are combined with the same (converted) argument -/
+theorem lane_op_scalar_conversion {γ : Type} (L : Loop) (hL : L.canonical) (hip : L.inPlace = false)
+    (hargs : L.args = [.vec 0 .i, .scalar]) (f : α → Simd.Arg σ α → Option γ) (toLane : σ → Option α)
+    (truth : σ → Option Bool) (a : Vec α S) (s : σ) :
+    Simd.binVSx L f toLane truth a s =
+      (Simd.passScalar L.scalarTy toLane truth s).bind fun arg => allSome (a.map fun x => f x arg) :=
+  binVSx_spec L hL hip hargs f toLane truth a s
+
+/-- nested vectors: every lane of every entry is compared with the scalar in its own type -/
+theorem lane_op_compare_mixed_nested (sem : CmpOp → α → Simd.Arg σ α → Option Bool) (toLane : σ → Option α)
+    (truth : σ → Option Bool) (op : CmpOp) (a : Vec (Vec α S₂) S) (s : σ) (v : Vec (Vec Bool S₂) S)
+    (h : Simd.binVSxNested loop_COMPARISON_OP_vs (sem op) toLane truth a s = some v)
+    (i : Nat) (hi : i < S) (j : Nat) (hj : j < S₂) : sem op (a[i])[j] (.own s) = some (v[i])[j] := by
+  unfold Simd.binVSxNested at h
+  have hp : Simd.passScalar loop_COMPARISON_OP_vs.scalarTy toLane truth s = some (.own s) := by
+    rw [scalar_param_types.1]; rfl
+  rw [hp] at h
+  have h1 := (binVS_canonical loop_COMPARISON_OP_vs (by decide) (by decide) (by decide)
+    (fun (x : Vec α S₂) g => Simd.binVS loop_COMPARISON_OP_vs (sem op) x g) a (Simd.Arg.own s)).lane h i hi
+  exact (binVS_canonical loop_COMPARISON_OP_vs (by decide) (by decide) (by decide) (sem op) a[i] (Simd.Arg.own s)).lane h1 j hj
+
+end Mixed
+
+/-- mixed comparison of exact integers with exact halves (`σ = Int`, value `s/2`): `[1,2,3,4] < 5/2` is `[1,1,0,0]`;
+    converting the scalar to the lanes' type first (`5/2 → 2`) would give `[1,0,0,0]` -/
+def halfCmp : CmpOp → Int → Simd.Arg Int Int → Option Bool
+  | .lt, x, .own s => some (decide (2 * x < s))
+  | .lt, x, .lane y => some (decide (x < y))
+  | _, _, _ => none
+example : Simd.compareVSx halfCmp (fun s => some (Int.tdiv s 2)) (fun s => some (s != 0)) .lt (#v[1, 2, 3, 4] : Vec Int 4) 5
+    = some #v[true, true, false, false] := by decide +kernel
+example : Simd.binVSx { loop_COMPARISON_OP_vs with scalarTy := .laneScalar } (halfCmp .lt) (fun s => some (Int.tdiv s 2))
+    (fun s => some (s != 0)) (#v[1, 2, 3, 4] : Vec Int 4) 5 = some #v[true, false, false, false] := by decide +kernel
+
+section Checked
+variable {V : Type → Type} {L : Nat} (X : SimdLike V L) (hX : X.Lawful) {K : Type} (R : Arith K) {n : Nat}
+
+include hX in
+/-- **solve in the checked configuration** (`DUNE_FMatrix_WITH_CHECKING`; `chk = some below`, `below x` = the scalar test
+    `absreal(x) < absolute_limit()`; `chk = none`: macro not defined): if the SIMD call returns, the scalar call returns
+    for every lane with that lane of the solution … -/
+theorem solve_checked_lanewise (chk : Option (K → Bool)) (piv : Bool) (A : Mat (V K) n) (b x : Vector (V K) n)
+    (h : solveC X R chk piv A b = some x) (l : Fin L) :
+    solveC (V := fun α => α) SimdLike.scalar R chk piv (laneMat X l A) (laneVec X l b) = some (laneVec X l x) :=
+  solveC_lanewise_some X hX R chk piv A b x h l
+
+include hX in
+/-- … and it throws `FMatrixError` exactly if the scalar call throws for at least one lane — in particular when the matrix
+    is below the limit in **some but not all** lanes -/
+theorem solve_checked_throws_iff (chk : Option (K → Bool)) (piv : Bool) (A : Mat (V K) n) (b : Vector (V K) n) :
+    solveC X R chk piv A b = none ↔
+      ∃ l, solveC (V := fun α => α) SimdLike.scalar R chk piv (laneMat X l A) (laneVec X l b) = none := by
+  constructor
+  · exact solveC_lanewise_none X hX R chk piv A b
+  · rintro ⟨l, hl⟩
+    cases h : solveC X R chk piv A b with
+    | none => rfl
+    | some x => rw [solveC_lanewise_some X hX R chk piv A b x h l] at hl; cases hl
+
+include hX in
+theorem invert_checked_lanewise (chk : Option (K → Bool)) (piv : Bool) (A B : Mat (V K) n)
+    (h : invertC X R chk piv A = some B) (l : Fin L) :
+    invertC (V := fun α => α) SimdLike.scalar R chk piv (laneMat X l A) = some (laneMat X l B) :=
+  invertC_lanewise_some X hX R chk piv A B h l
+
+include hX in
+theorem invert_checked_throws_iff (chk : Option (K → Bool)) (piv : Bool) (A : Mat (V K) n) :
+    invertC X R chk piv A = none ↔ ∃ l, invertC (V := fun α => α) SimdLike.scalar R chk piv (laneMat X l A) = none := by
+  constructor
+  · exact invertC_lanewise_none X hX R chk piv A
+  · rintro ⟨l, hl⟩
+    cases h : invertC X R chk piv A with
+    | none => rfl
+    | some B => rw [invertC_lanewise_some X hX R chk piv A B h l] at hl; cases hl
+
+/-- without the macro the two configurations coincide -/
+theorem checked_off_is_unchecked (piv : Bool) (A : Mat (V K) n) (b : Vector (V K) n) :
+    solveC X R none piv A b = solve X R piv A b ∧ invertC X R none piv A = invert X R piv A :=
+  ⟨solveC_none X R piv A b, invertC_none X R piv A⟩
+
+end Checked
+
+/-- 3×3, two lanes: lane 0 = diag(1,2,3) (regular), lane 1 has two equal rows (determinant 0) -/
+def mixed3 : Mat (Vec Int 2) 3 :=
+  #v[#v[#v[1, 1], #v[0, 2], #v[0, 3]],
+     #v[#v[0, 1], #v[2, 2], #v[0, 3]],
+     #v[#v[0, 0], #v[0, 1], #v[3, 1]]]
+def regular3 : Mat (Vec Int 2) 3 :=
+  #v[#v[#v[1, 1], #v[0, 0], #v[0, 0]],
+     #v[#v[0, 0], #v[2, 1], #v[0, 0]],
+     #v[#v[0, 0], #v[0, 0], #v[3, 1]]]
+-- one singular lane makes the checked solve throw although the other lane is regular; the unchecked closed form returns
+example : solveC (SimdLike.loop 2) intArith (some fun x => decide (intArith.abs x < 1)) true mixed3 #v[#v[1, 1], #v[2, 1], #v[3, 1]] = none ∧
+    (solveC (SimdLike.loop 2) intArith none true mixed3 #v[#v[1, 1], #v[2, 1], #v[3, 1]]).isSome = true := by decide +kernel
+-- … and with both lanes regular it returns the lane-wise solution
+example : solveC (SimdLike.loop 2) intArith (some fun x => decide (intArith.abs x < 1)) true regular3 #v[#v[1, 1], #v[2, 1], #v[3, 1]]
+    = some #v[#v[1, 1], #v[1, 1], #v[1, 1]] := by decide +kernel
 
 end DV.C09
